@@ -21,7 +21,7 @@ def run_fuzzy(ck, sc, tier):
     r = vlib.run_harness([exe, out, sc.path("fz"), "14", str(ck.seed), "1" if q else "40"], timeout=1800)
     m = re.search(r"^SUMMARY (\{.*\})$", r.stdout or "", re.M)
     if r.returncode != 0 or not m:
-        if r.returncode in (97, 98, 99, -6, -11) or "Sanitizer" in (r.stderr or ""):
+        if r.returncode in (96, 97, 98, 99, -6, -11) or "Sanitizer" in (r.stderr or ""):
             return None, [("crash", {"what": "sanitizer abort in the fuzzy routines (e.g. scratch buffer overrun)", "stderr": (r.stderr or "")[-1500:]})], []
         raise Broken("fuzzy harness failed rc=%s: %s" % (r.returncode, (r.stderr or "")[-1500:]))
     summ = json.loads(m.group(1))
@@ -33,7 +33,7 @@ def run_fuzzy(ck, sc, tier):
         rw = vlib.run_harness([exe_w, out, sc.path("fz%d" % real), "2", str(ck.seed), "1"], timeout=900)
         mw = re.search(r"^SUMMARY (\{.*\})$", rw.stdout or "", re.M)
         if rw.returncode != 0 or not mw:
-            if rw.returncode in (97, 98, 99, -6, -11) or "Sanitizer" in (rw.stderr or ""):
+            if rw.returncode in (96, 97, 98, 99, -6, -11) or "Sanitizer" in (rw.stderr or ""):
                 return None, [("crash", {"what": "sanitizer abort in the fuzzy routines, real width %d (e.g. scratch buffer overrun)" % real, "stderr": (rw.stderr or "")[-1500:]})], []
             raise Broken("fuzzy harness (real width %d) failed rc=%s: %s" % (real, rw.returncode, (rw.stderr or "")[-1500:]))
         sw = json.loads(mw.group(1))
